@@ -189,3 +189,160 @@ pub fn admission_oracle(sc: &Scenario, rec: &RunRecord) -> (Vec<Violation>, Vec<
         ],
     )
 }
+
+// ---------------------------------------------------------------------------------------------
+// Part (b), layer 2: 2..8 client threads issue the same action on the same open act under
+// preemptive schedules (baton handed over at intercepted engine lock operations).
+
+pub fn def_b() -> CheckDef {
+    CheckDef {
+        id: "C05b",
+        title: "Client actions: at-most-once effect among racing client threads (layer 2)",
+        case: case_b,
+        rule: "case = a small model with an open interrupt (optionally with declared outputs, followed by another act / step / nothing) x 2..8 virtual client threads that all issue the same action (complete / submit / skip / abort / error / remove) on that act x preemption probability at engine lock points in {1%, 10%, 50%} x seeded choice of the thread that gets the baton; the executor runs as one more virtual thread. Over the invoke/return history: exactly one call returns Ok; after quiescence the successor has exactly one task instance and the act has exactly one terminal message. non-trivial = at least two client threads were inside their call at the same time (a baton switch happened between an invoke and its return); distinct = distinct (scenario hash, schedule hash)",
+        level: "exploration",
+        assumptions: &["preemption happens at engine lock acquisitions (all shared engine state is behind these locks)", "virtual threads are real OS threads released one at a time; the interleaving is the decision trace", "monotone simulated clock"],
+        probes: &["probe.overlapping_calls", "probe.forced_switch", "probe.eight_threads", "probe.action_complete", "probe.action_other"],
+        quick_cases: 1200,
+        no_shrink: &[],
+    }
+}
+
+pub fn case_b(ctx: &mut CaseCtx) -> CaseOut {
+    use crate::model::*;
+    let mut gr = vsim::rng::Rng::new(vsim::rng::mix(&[ctx.case_seed, 0xc05b]));
+    let m_threads = *gr.pick(&[2usize, 2, 3, 4, 8]);
+    let action = gr.pick(&["complete", "complete", "complete", "submit", "skip", "abort", "error", "remove"]).to_string();
+    let preempt = *gr.pick(&[10u32, 100, 500]);
+    // `error` on an act that declares outputs is always rejected (the options are cut down to the declared
+    // outputs, which drops `ecode`): not a race subject
+    let with_outputs = gr.below(3) == 0 && action != "error";
+    let tail = gr.below(3);
+    let sc = ctx.scenario(|_| {
+        let mut sc = Scenario::default();
+        let mut a1 = MAct { id: "a1".into(), key: "k1".into(), kind: ActKind::Irq, ..Default::default() };
+        if with_outputs {
+            a1.outputs = vec!["o1".into()];
+        }
+        let mut acts = vec![a1];
+        if tail == 0 {
+            acts.push(MAct { id: "a2".into(), key: "k2".into(), kind: ActKind::Irq, ..Default::default() });
+        } else if tail == 1 {
+            acts.push(MAct { id: "a2".into(), key: "m2".into(), kind: ActKind::Msg, ..Default::default() });
+        }
+        sc.models.push(MWorkflow { id: "m".into(), steps: vec![MStep { id: "s1".into(), acts, ..Default::default() }, MStep { id: "s2".into(), acts: vec![MAct { id: "a3".into(), key: "k3".into(), kind: ActKind::Irq, ..Default::default() }], ..Default::default() }], ..Default::default() });
+        sc.starts.push(Start { model: "m".into(), vars: serde_json::Map::new(), pid: Some("p1".into()), at_q: 0 });
+        sc.engine.keep_processes = true;
+        sc.client.default = Reaction::of("none");
+        sc.capture = true;
+        sc.knobs.policy = "random".into();
+        sc
+    });
+    let act = action.clone();
+    let stats: std::sync::Arc<std::sync::Mutex<(u64, u64, u64, Option<String>, bool)>> = Default::default();
+    let stats2 = stats.clone();
+    let rec = ctx.run_with(&sc, move |w| {
+        if let Err(e) = w.deploy_all() {
+            w.rec.lock().unwrap().rec.panics.push(format!("deploy: {e}"));
+            return;
+        }
+        let starts = w.sc.starts.clone();
+        for s in &starts {
+            w.start(s);
+        }
+        w.settle();
+        w.capture("before race");
+        w.qidx += 1;
+        let oa = {
+            let g = w.rec.lock().unwrap();
+            g.open.iter().find(|o| o.key == "k1").cloned()
+        };
+        let Some(oa) = oa else { return };
+        let mut opts = serde_json::Map::new();
+        if w.sc.models[0].steps[0].acts[0].outputs.contains(&"o1".to_string()) {
+            opts.insert("o1".into(), serde_json::json!(5));
+        }
+        if act == "error" {
+            opts.insert("ecode".into(), serde_json::json!("e1"));
+            opts.insert("message".into(), serde_json::json!("boom"));
+        }
+        vsim::vthread::begin(preempt);
+        let mut hs = vec![];
+        for i in 0..m_threads {
+            let engine = w.engine().clone();
+            let rec = w.rec.clone();
+            let (pid, tid, key, act, opts) = (oa.pid.clone(), oa.tid.clone(), oa.key.clone(), act.clone(), opts.clone());
+            let epoch = w.epoch;
+            hs.push(vsim::vthread::spawn(&format!("client{}", i), move || {
+                vsim::set_epoch(epoch);
+                crate::world::do_action(&engine, &rec, &pid, &tid, &act, &opts, &key, &format!("thread{}", i), false);
+            }));
+        }
+        let (_n, ok) = crate::layer2::run_executor_with_threads(50_000);
+        let st = vsim::vthread::end();
+        for h in hs {
+            let _ = h.join();
+        }
+        *stats2.lock().unwrap() = (st.points, st.switches, st.forced, st.deadlock, ok);
+        w.settle();
+        w.capture("after race");
+        w.qidx += 1;
+    });
+    let mut out = CaseOut { scenario: Some(sc.clone()), ..Default::default() };
+    if discard_if_broken(&rec, &mut out) {
+        return out;
+    }
+    let st = stats.lock().unwrap().clone();
+    ctx.count("layer2.sched_points", st.0);
+    ctx.count("layer2.switches", st.1);
+    if st.2 > 0 {
+        ctx.count("probe.forced_switch", 1);
+    }
+    if m_threads == 8 {
+        ctx.count("probe.eight_threads", 1);
+    }
+    ctx.count(if action == "complete" { "probe.action_complete" } else { "probe.action_other" }, 1);
+    let calls: Vec<&ActionRec> = rec.actions.iter().filter(|a| a.by.starts_with("thread")).collect();
+    let mut v = vec![];
+    let sig = |what: &str| json!({"what": what, "action": action});
+    if let Some(d) = &st.3 {
+        v.push(Violation::new("C05", "engine_lock_deadlock", sig("deadlock"), format!("the engine deadlocked on its own locks: {}", d)));
+    } else if !st.4 || calls.len() != m_threads {
+        out.discarded = Some(format!("race did not settle: {} of {} calls returned; panics {:?}", calls.len(), m_threads, rec.panics));
+        return out;
+    }
+    // overlapping calls: some invoke lies inside another call's interval
+    let overlapping = calls.iter().any(|a| calls.iter().any(|b| a.seq0 < b.seq0 && b.seq0 < a.seq1));
+    if overlapping {
+        ctx.count("probe.overlapping_calls", 1);
+    }
+    let oks = calls.iter().filter(|a| a.ok).count();
+    if v.is_empty() && oks != 1 {
+        v.push(Violation::new("C05", "concurrent_actions_not_exactly_one_success", json!({"what": if oks == 0 { "none" } else { "several" }, "action": action}), format!("{} threads issued `{}` on the same open act: {} calls returned Ok ({:?})", m_threads, action, oks, calls.iter().map(|a| if a.ok { "ok".to_string() } else { a.err.chars().take(40).collect::<String>() }).collect::<Vec<_>>())));
+    }
+    if v.is_empty() {
+        if let Some(q) = rec.qpoints.last() {
+            if let Some(p) = q.live.iter().find(|p| p.pid == "p1") {
+                // successors of the act: tasks whose prev is the act, and instances per node id
+                let tid = calls[0].tid.clone();
+                let succ: Vec<&TaskImg> = p.tasks.iter().filter(|t| t.prev.as_deref() == Some(tid.as_str())).collect();
+                let mut per_nid: std::collections::BTreeMap<&str, usize> = Default::default();
+                for t in &p.tasks {
+                    *per_nid.entry(t.nid.as_str()).or_default() += 1;
+                }
+                if succ.len() > 1 || per_nid.values().any(|n| *n > 1) {
+                    v.push(Violation::new("C05", "duplicate_successor", sig("successor"), format!("{} threads issued `{}`: the act has {} successor tasks, instances per node: {:?}", m_threads, action, succ.len(), per_nid)));
+                }
+            }
+        }
+        let term = rec.msgs.iter().filter(|m| m.via == "message" && m.tid == calls[0].tid && m.state != "created").count();
+        if v.is_empty() && term > 1 {
+            v.push(Violation::new("C05", "duplicate_terminal_message_under_race", sig("message"), format!("{} threads issued `{}`: the act produced {} terminal messages", m_threads, action, term)));
+        }
+    }
+    out.violations = v;
+    out.nontrivial = overlapping;
+    out.outcome_hash = outcome_hash(&rec);
+    out.sample = basic_sample(&sc, &rec, json!({"threads": m_threads, "action": action, "preempt_permille": preempt, "lock_sched_points": st.0, "baton_switches": st.1, "ok_calls": oks}));
+    out
+}
